@@ -187,7 +187,12 @@ func (a *LevLPAgent) Step(s *Sim) {
 			}
 			s.SendTx(u, "levlp/update_sl", &leveragelptypes.MsgUpdateStopLoss{Creator: u.Addr.String(), Position: pos.Id, Price: price.Mul(decFromFloat(0.8 + r.Float64()*0.3))})
 		case act < 9:
-			s.SendTx(u, "levlp/claim", &leveragelptypes.MsgClaimRewards{Sender: u.Addr.String(), Ids: []uint64{pos.Id}})
+			ids := []uint64{pos.Id}
+			if r.IntN(4) == 0 {
+				ids = append(ids, pos.Id) // the same position named twice
+				s.Stats.Probe("levlp_claim_with_repeated_id_submitted")
+			}
+			s.SendTx(u, "levlp/claim", &leveragelptypes.MsgClaimRewards{Sender: u.Addr.String(), Ids: ids})
 		default:
 			// the owner names its own position in the permissionless close-positions message
 			// (a way round the lock-up and the close rules if the handler lets it through)
